@@ -43,16 +43,21 @@ def cases(tier, seed):
 
 def check(case):
     ref = reference()
+    if not ref["targets_not_summed"]:
+        return False, "a requested target index reappears as a summation index of the result"
     if not ref["psi_disjoint"] or not ref["norm_disjoint"]:
         return False, "two requests for psi / norm_factor share contracted indices"
     if case["kind"] in ("hashseed", "history"):
         got = probe(REPO, case["hashseed"], case["history_seed"], case["history_len"])
-        for k in ("E2", "t2_1", "S2", "M1", "tie"):
+        for k in sorted(k for k, v in ref.items() if isinstance(v, str)):
             if got[k] != ref[k]:
                 return False, (f"{k} differs ({case['kind']} {case}): {got[k][:300]} vs reference "
                                f"{ref[k][:300]}")
         if not got["psi_disjoint"] or not got["norm_disjoint"]:
             return False, "psi / norm_factor share contracted indices after this history"
+        if not got["targets_not_summed"]:
+            return False, (f"after this history ({case}) a requested target index reappears as a "
+                           "summation index of the result")
         return True, ""
     # different tensor-name configuration: scratch copy of the package
     tmp = tempfile.mkdtemp(prefix="pyvc_c19_")
